@@ -167,4 +167,89 @@ def opsSim : List (String × Rd (List String)) := [
         ++ matHex (stubCov cv xa n) ++ matHex (stubXCov xa 0 n) ++ matHex (stubXCov xa 1 n)))
 ]
 
+/-! ### C05: dual-mode samples -/
+def modeTheoryOf (k : ModKind) (s : Stokes Float) : ModeTheory Float :=
+  let (mu, var) := modMoments k
+  let cov := match k with | .plain => modeCov s | _ => modulatedCov (modeCov s) s mu var
+  let mean : Stokes Float := match k with | .plain => s | _ => fun i => s i * mu
+  ⟨mean, cov, kindXCov k s⟩
+def truncU (x : Float) : Nat := x.toUInt32.toNat
+def permField (p : Jones Float) (g : Vec 4 Float) : Spinor Float :=
+  let perm : Fin 4 → Fin 4 := fun i => match i with | 0 => 1 | 1 => 0 | 2 => 3 | 3 => 2
+  getField p (fun i => g (perm i))
+def stubField (isB : Bool) (_ : Jones Float) (_ : Vec 4 Float) : Spinor Float :=
+  if isB then ⟨⟨0.0, 0.0⟩, ⟨2.0, 0.0⟩⟩ else ⟨⟨1.0, 0.0⟩, ⟨0.0, 0.0⟩⟩
+def jA : Jones Float := ⟨⟨1.0, 0.0⟩, ⟨0.0, 0.0⟩, ⟨0.0, 0.0⟩, ⟨0.0, 0.0⟩⟩
+def jB : Jones Float := ⟨⟨2.0, 0.0⟩, ⟨0.0, 0.0⟩, ⟨0.0, 0.0⟩, ⟨0.0, 0.0⟩⟩
+/-- a stub is recognised by its "polarizer": `jA` delivers the field (1,0), `jB` the field (0,2) -/
+def stubFieldOf (p : Jones Float) (_ : Vec 4 Float) : Spinor Float :=
+  if p.j00.re == 2.0 then ⟨⟨0.0, 0.0⟩, ⟨2.0, 0.0⟩⟩ else ⟨⟨1.0, 0.0⟩, ⟨0.0, 0.0⟩⟩
+def selectsA (r : Nat) (f : Float) : Bool := Float.ofNat r / 2147483647.0 < f
+
+def opsDual : List (String × Rd (List String)) := [
+  ("du.counts", do
+      let kind ← tok; let f ← hexFloat; let n ← nat
+      let rest ← get
+      let r ← (if rest.isEmpty then pure 0 else nat)
+      match kind with
+      | "superposed" =>
+        let (st, _) := superposedGen stubFieldOf jA jB n []
+        pure ([toString n, toString n] ++ vecHex st ++ ["0"])
+      | "composite" =>
+        let nA := truncU (f * Float.ofNat n)
+        let nB := compositeCountB currentCompositeCountsRepaired nA n (truncU (Float.ofNat n - f))
+        let (st, _) := compositeGen stubFieldOf jA jB nA nB n []
+        pure ([toString (max nA nB), toString (max nA nB)] ++ vecHex st ++ ["0"])
+      | "disjoint" =>
+        let sa := selectsA r f
+        let (st, _) := disjointGen stubFieldOf jA jB sa n []
+        pure ([toString (if sa then n else 0), toString (if sa then 0 else n)] ++ vecHex st ++ ["1"])
+      | _ => perr "dual kind"),
+  ("du.theory", do
+      let kind ← tok; let f ← hexFloat; let n ← nat; let kappa ← hexFloat; let lag ← nat
+      let sa ← stokesF; let ka ← modKind; let sb ← stokesF; let kb ← modKind
+      let a := modeTheoryOf ka sa; let b := modeTheoryOf kb sb
+      match kind with
+      | "superposed" =>
+        let cov := superposedCov a b kappa n
+        pure (vecHex (superposedMean a b) ++ matHex cov ++ matHex (if lag == 0 then cov else combinationXCov a b lag n))
+      | "composite" =>
+        let nA := truncU (f * Float.ofNat n)
+        let cov := compositeCov currentCompositeZeroGuard a b kappa nA n
+        pure (vecHex (compositeMean a b nA n) ++ matHex cov ++ matHex (if lag == 0 then cov else combinationXCov a b lag n))
+      | "disjoint" =>
+        let cov := disjointCov a b f n
+        pure (vecHex (disjointMean a b f) ++ matHex cov ++ matHex (if lag == 0 then cov else disjointXCov a b f lag))
+      | "coherent" =>
+        let cov := coherentCov a b n
+        pure (vecHex (superposedMean a b) ++ matHex cov ++ matHex (if lag == 0 then cov else combinationXCov a b lag n))
+      | _ => perr "dual kind"),
+  ("du.gen", do
+      let kind ← tok; let f ← hexFloat; let n ← nat; let r ← nat
+      let sa ← stokesF; let sb ← stokesF
+      let rest ← get
+      let devs ← listOf (rest.filter (fun t => !t.startsWith "#")).length hexFloat
+      match setStokes fsqrt ordFloat linF sa, setStokes fsqrt ordFloat linF sb with
+      | .ok pa, .ok pb =>
+        let need (k : Nat) : Rd Unit := if devs.length < k then throw (.throw "normal-deviates-exhausted") else pure ()
+        match kind with
+        | "superposed" => do
+          need (8*n)
+          let (st, used) := superposedGen permField pa pb n devs
+          pure (vecHex st ++ [toString used, "0"])
+        | "composite" => do
+          let nA := truncU (f * Float.ofNat n)
+          let nB := compositeCountB currentCompositeCountsRepaired nA n (truncU (Float.ofNat n - f))
+          need (8 * max nA nB)
+          let (st, used) := compositeGen permField pa pb nA nB n devs
+          pure (vecHex st ++ [toString used, "0"])
+        | "disjoint" => do
+          need (4*n)
+          let (st, used) := disjointGen permField pa pb (selectsA r f) n devs
+          pure (vecHex st ++ [toString used, "1"])
+        | _ => perr "dual kind"
+      | .error e, _ => throw e
+      | _, .error e => throw e)
+]
+
 end Epsic.Driver
